@@ -100,6 +100,20 @@ def string_placements():
         yield 'strpos', ValueError(s, 1)
 
 
+def quote_mix_values():
+    """Strings whose numbers of apostrophes and double quotes differ in every way (the printed quote is
+    chosen by the library, repr() would choose differently), longer than the 10-column floor, in containers."""
+    seen = set()
+    for slots in itertools.product(("'", '"', ''), repeat=5):
+        s = 'ab ' + 'cd '.join(slots) + 'ef'
+        if s in seen or ("'" not in s and '"' not in s):
+            continue
+        seen.add(s)
+        yield 'quotes', [s]
+        yield 'quotes', {'k': s}
+        yield 'quotes', (s.encode(), 1)
+
+
 def everything(tree_nodes):
     fixtures.register()
-    return itertools.chain(builtin_trees(tree_nodes), scaled_values(), string_placements(), stdlib_values(), subclass_values(), commented_values(), call_values())
+    return itertools.chain(builtin_trees(tree_nodes), scaled_values(), string_placements(), quote_mix_values(), stdlib_values(), subclass_values(), commented_values(), call_values())
